@@ -96,6 +96,11 @@ claimed = {
   text="rapid generates 8-22 named types in two packages (named basics, structs with tags / unexported / embedded value and pointer fields, generic structs and instances, named interfaces, named composites, a recursive struct, 0-3 methods on value and pointer receivers incl. String/Error/GoString) plus 4-10 unnamed composites, 1-3 values each; the program walks every type with reflect (kind, name, string, PkgPath, fields, tags, index paths, VisibleFields, method tables by index and by constant and computed name, implements/assignable/convertible, composite constructors), exercises the values (getters, Set/Convert/Append/MakeMap/MakeSlice/MakeChan round trips, every method through Value.Method and through a pointer, DeepEqual) and formats them with ~40 fmt verbs/flags, in three modes that vary which reflect entry points the program mentions (method-table pruning). Output under llgo (O0) must equal gc's. Exploration only.",
   note="gc 1.24 is the reference; O0 only; excluded by construction: sizes/offsets of types containing func values, anything printing an address, byte/rune type arguments (C07 finding), structs ending in a zero-size field (C08 finding); four listed findings are mapped line by line (main package path, named func types, func Set round trip, nil pointer receivers not dereferenced).",
   design="§3 C15, §7"),
+ "C13": dict(
+  technique="stateful property-based testing (rapid): generated edit/rebuild histories over generated multi-package modules against a model of the inputs, plus pairwise reproducibility of package archives",
+  text="rapid generates a module main -> p1 -> ... (2-4 packages; per package a constant folded into importers at compile time, optionally an embedded file, a C file named by LLGoFiles, build-tag-selected files, init-carrying extra files) and a history of 4-10 steps (edit a constant of main / a dependency / the leaf, edit an embedded file with the same or another length, edit the C file, toggle the build tag, add / remove a source file, revert, rewrite unchanged, -O0/-O2, no-op rebuild, drop the module's cache entries, and a dedicated same-size-same-mtime edit). After every step the llgo under test rebuilds with the same cache directory; the program must print what the model computes from the current inputs. At the end two builds from an empty module cache must have byte-identical archive members. Exploration only.",
+  note="Drives the llgo command line; -X overrides (not reachable from the CLI) and behaviour-affecting environment variables are not generated; the final executable is not compared (only package archives); same-size-same-mtime edits are a listed finding.",
+  design="§3 C13, §7"),
 }
 not_yet = "check not built yet in this session (see DESIGN.md §3 for the planned generated-input check)"
 
